@@ -203,10 +203,14 @@ def no_send_in(stmts, node):
     ''' An infeasibility branch: only ``ctr.route = None`` / ``ctr.sender = None`` then ``raise``. '''
     body = strip(stmts)
     expect(body and isinstance(body[-1], ast.Raise), node, 'infeasibility branch does not end in raise')
+    cleared = set()
     for stmt in body[:-1]:
         ok = (isinstance(stmt, ast.Assign) and len(stmt.targets) == 1
               and dotted(stmt.targets[0]) in ('ctr.route', 'ctr.sender') and is_none(stmt.value))
         expect(ok, stmt, 'infeasibility branch does something other than clearing route/sender')
+        cleared.add(dotted(stmt.targets[0]))
+    # "nothing is sent" needs both: send_bundle() transmits whenever the container still has a sender
+    expect(cleared == {'ctr.route', 'ctr.sender'}, node, 'infeasibility branch does not clear both ctr.route and ctr.sender')
 
 
 def generate(repo_src):
